@@ -45,8 +45,8 @@ func runC13(r *Run) {
 	r.rule("C13.R2", "every fee-less ante branch ends in next(...) or an error; branch-specific duties (gas meter limit 0, top priority, size limit, signer = public-key address, signature verification, nonce check per message)", 16)
 	r.rule("C13.R3", "ante chain composition and order for Cosmos transactions", 5)
 	r.rule("C13.R4", "nonce check: reject above MaxNonce; write only on the previous+1 arm of the matching feeder; every other exit is an error", 6)
-	r.rule("C13.R5", "nonce lifecycle: zero record only when absent; removed for sealed rounds, at finalisation, added for new rounds; writer set of the nonce family", 7)
-	r.rule("C13.R6", "counted-only-if guards dominate aggregation: membership, open round, base block, rule, decimals, duplicate filters; rule check rejects any missing source", 11)
+	r.rule("C13.R5", "nonce lifecycle: zero record only when absent; removed for sealed rounds, at finalisation, added for new rounds; writer set of the nonce family", 8)
+	r.rule("C13.R6", "counted-only-if guards dominate aggregation: membership, open round, base block, rule, decimals, duplicate filters; rule check rejects any missing source", 14)
 	r.rule("C13.R7", "timestamp window: unrounded block time + 5 s, strict 'later than' rejection, every price, empty/unparseable rejected, before any aggregation", 6)
 
 	// ------------------------------------------------------------------ R1
@@ -470,6 +470,24 @@ func runC13(r *Run) {
 				}
 			}
 		}
+		// a validator that leaves the set loses its nonce records (the sealed-round removal below only covers
+		// the validators of the new set)
+		okLeft := false
+		for _, c := range v.CallsNamed("RemoveNonceWithValidator") {
+			loop, _ := v.innermostLoop(c).(*ast.RangeStmt)
+			if loop == nil || !resolvesToCallV(v, loop.X, "GetValidatorUpdates") || len(c.Args) != 2 {
+				continue
+			}
+			vu := v.objOf(loop.Value)
+			zero := v.factsOf(c).cmp(func(cm cmp) bool {
+				return cm.Op == "==" && lastField(cm.L) == "Power" && v.objOf(rootIdent(cm.L)) == vu && exprString(cm.R) == "0"
+			})
+			fromKey := v.derivesFromIter(c.Args[1], map[types.Object]bool{vu: true}, loop.Body, 0) && strings.Contains(exprString(c.Args[1]), "ConsAddress(")
+			if zero && fromKey {
+				okLeft = true
+			}
+		}
+		r.check(okLeft, "C13.R5", "endblock|leaving-validator-loses-nonces", v.pos(v.Decl), "a validator whose power drops to zero loses its nonce records (nobody but current validators is admitted)", "EndBlock does not call RemoveNonceWithValidator(consensus address) for validator updates with Power == 0: the removed validator's fee-less transactions keep passing the ante nonce check")
 		r.check(okRm, "C13.R5", "endblock|sealed-rounds-lose-nonces", v.pos(v.Decl), "every sealed round's nonces are removed (no admission after the round closed)", "EndBlock does not unconditionally remove the nonces of every feeder in SealRound's sealed list")
 		r.check(okAdd, "C13.R5", "endblock|new-rounds-get-nonces", v.pos(v.Decl), "every newly opened round gets zero nonces for the validators", "EndBlock does not unconditionally add zero nonces for every feeder returned by PrepareRoundEndBlock")
 	}
@@ -693,6 +711,50 @@ func runC13(r *Run) {
 			return true
 		})
 		r.check(ok && okKey, "C13.R6", "filter|source-round-once", v.pos(v.Decl), "a source round already reported by this validator is dropped", "deterministic prices are appended without the per-(validator, source) DetID set accepting the id")
+	}
+	// role-typed indexing of the params tables: Tokens by a token id, TokenFeeders by a feeder id
+	{
+		nIdx := 0
+		for _, fv := range w.allViews() {
+			if !strings.HasPrefix(fv.ID(), "x/oracle") || strings.HasSuffix(w.relFile(fv.Decl.Pos()), ".pb.go") {
+				continue
+			}
+			ast.Inspect(fv.Decl.Body, func(n ast.Node) bool {
+				ix, ok := n.(*ast.IndexExpr)
+				if !ok {
+					return true
+				}
+				tbl := lastField(ix.X)
+				if tbl != "Tokens" && tbl != "TokenFeeders" {
+					return true
+				}
+				// only the oracle Params tables
+				if t := fv.Info.TypeOf(ix.X); t == nil || !strings.Contains(t.String(), "x/oracle/types.Token") {
+					return true
+				}
+				nIdx++
+				idx := strings.ToLower(exprString(ix.Index))
+				role := "?"
+				switch {
+				case strings.Contains(idx, "tokenid"):
+					role = "token"
+				case strings.Contains(idx, "feederid") || strings.Contains(idx, "tfidx") || strings.Contains(idx, "feeder"):
+					role = "feeder"
+				case fv.constOf(ix.Index) != nil:
+					role = "const"
+				}
+				// a loop index over the same table is its own role
+				if lp, isLoop := fv.innermostLoop(ix).(*ast.RangeStmt); isLoop && lp.Key != nil && fv.objOf(lp.Key) != nil && fv.objOf(lp.Key) == fv.objOf(ix.Index) && lastField(lp.X) == tbl {
+					role = map[string]string{"Tokens": "token", "TokenFeeders": "feeder"}[tbl]
+				}
+				want := map[string]string{"Tokens": "token", "TokenFeeders": "feeder"}[tbl]
+				r.check(role == want || role == "const", "C13.R6", fmt.Sprintf("index-role|%s|%s[%s]", fv.ID(), tbl, exprString(ix.Index)), fv.pos(ix), tbl+" is indexed by a "+want+" id", fv.ID()+" indexes "+tbl+" with "+exprString(ix.Index)+" (a "+role+" id): decimals/rules are taken from another token once feeder and token ids are out of step (a resumed feeder)")
+				return true
+			})
+		}
+		if nIdx < 5 {
+			r.bad("C13.R6", "index-role|count", "-", "params table accesses found", fmt.Sprintf("only %d", nIdx))
+		}
 	}
 	if v := w.View("x/oracle/types", "Params.CheckRules"); v == nil {
 		r.bad("C13.R6", "anchor|CheckRules", "-", "anchor", "not found")
